@@ -70,6 +70,14 @@ theorem default_port :
   refine ⟨fun _ _ _ _ _ => rfl, fun _ _ _ _ _ => rfl, fun proto pld q h1 h2 h3 => ?_⟩
   simp [dstScionPort, h1, h2, h3]
 
+/-- the length guards of the Go code are sufficient for its slice accesses: whenever a guard lets
+a header through, the 16-bit read behind it is in range (the model's `none` branches, which stand
+for an index-out-of-range panic, are dead) -/
+theorem guards_suffice (bs : Bytes) :
+    (8 ≤ bs.length → (u16At bs 2).isSome = true) ∧      -- UDP (and TCP with 20)
+    (4 ≤ bs.length → (u16At bs 0).isSome = true) :=     -- echo (and traceroute with 20)
+  ⟨fun h => Proofs.u16At_isSome bs 2 (by omega), fun h => Proofs.u16At_isSome bs 0 (by omega)⟩
+
 /-! ### 2. from the derived port to the underlay destination -/
 
 /-- the redirect step: in range ⇒ unchanged, otherwise the redirect port -/
